@@ -426,9 +426,16 @@ func checkMain(args []string) {
 		}
 		path := writeReplay(*verif, *prop, *seed, *tier, f, min, mv, mlog)
 		// the replay must reproduce in a fresh process before it is believed
-		cmd := exec.Command(self, "replay", path)
-		out, _ := cmd.CombinedOutput()
-		if cmd.ProcessState == nil || cmd.ProcessState.ExitCode() != 1 || !strings.Contains(string(out), "REPRODUCED class="+mv.Class()) {
+		var out []byte
+		reproduced := false
+		for attempt := 0; attempt < 4 && !reproduced; attempt++ {
+			// one attempt is enough for everything the simulator controls; a tree
+			// that starts goroutines of its own may need more than one
+			cmd := exec.Command(self, "replay", path)
+			out, _ = cmd.CombinedOutput()
+			reproduced = cmd.ProcessState != nil && cmd.ProcessState.ExitCode() == 1 && strings.Contains(string(out), "REPRODUCED class="+mv.Class())
+		}
+		if !reproduced {
 			infra("replay of %s did not reproduce class %s in a fresh process (harness nondeterminism?):\n%s", path, mv.Class(), tail(string(out), 1500))
 		}
 		lines = append(lines, fmt.Sprintf("VIOLATION property=%s replay=%s", *prop, path))
